@@ -1,0 +1,41 @@
+//go:build verif
+
+package markdown
+
+import (
+	"bytes"
+
+	"github.com/yuin/goldmark/ast"
+	east "github.com/yuin/goldmark/extension/ast"
+	"github.com/yuin/goldmark/text"
+)
+
+// Verification hooks (build tag verif): the leaf helpers of the markdown glue, for the model correspondence.
+
+// VerifParse parses src with the parser the renderer uses.
+func VerifParse(m *Markdown, src []byte) ast.Node { return m.parser.Parse(text.NewReader(src)) }
+
+// VerifWriteText is writeText into a string.
+func VerifWriteText(segment []byte, raw bool) string {
+	var buf bytes.Buffer
+	_ = writeText(&buf, segment, raw)
+	return buf.String()
+}
+
+// VerifPlainText is plainText.
+func VerifPlainText(segment []byte) string { return string(plainText(segment)) }
+
+// VerifInlineText is inlineText.
+func VerifInlineText(n ast.Node, src []byte) string { return inlineText(n, src) }
+
+// VerifCodeBlockContent is codeBlockContent.
+func VerifCodeBlockContent(n ast.Node, src []byte) string { return codeBlockContent(n, src) }
+
+// VerifCodeSpanContent is codeSpanContent.
+func VerifCodeSpanContent(n *ast.CodeSpan, src []byte) string { return codeSpanContent(n, src) }
+
+// VerifHeadingID is headingID.
+func VerifHeadingID(content string) string { return headingID(content) }
+
+// VerifAlignString is alignString.
+func VerifAlignString(a east.Alignment) string { return alignString(a) }
